@@ -80,7 +80,7 @@ pub fn run_one(case: &Case, path: &str, prefix: &[u8], policy: RwPolicy) -> (Exe
     let _ = std::fs::remove_file(path);
     let cfg = Cfg { num_pages: case.num_pages, ..Cfg::default() };
     let db = match real::guarded(|| cfg.open(path)) {
-        Ok(Ok(db)) => Arc::new(db),
+        Ok(Ok(db)) => db,
         other => return (ExecResult { points: vec![], deadlock: None, diverged: Some(format!("cannot create base: {:?}", other.map(|r| r.map(|_| ())))), panics: vec![] }, vec![], String::new()),
     };
     let commits_done = Arc::new(AtomicI64::new(0));
